@@ -109,24 +109,44 @@ Theorem C10_F_invariances :
 Proof. exact (conj F_increasing_map_invariant F_member_permutation_invariant). Qed.
 Print Assumptions C10_F_invariances.
 
+(* mapping F -> u of the repaired kernel (tolerance 0.25/m^2): for EVERY ensemble
+   size m >= 1, u is the sign of F - 1/2 (1 / 0 / tie value 1/2), because the
+   attainable values of F are the multiples of 1/(2 m^2) *)
 Theorem C10_u_of_F :
   (* u_of_F_values *)
-  (forall F,
-  (F = 1 -> u_of_F RR KR F = 1) /\ (F = 0 -> u_of_F RR KR F = 0) /\
-  (F = 1 / 2 -> u_of_F RR KR F = 1 / 2)) /\
-  (* the thresholds 1/2 -+ 1e-8 of the kernel separate F = 1/2 from every other
-     attainable value as long as 2e-8 m^2 < 1 (m <= 7071 members) *)
+  (forall nc F, (1 <= nc)%nat ->
+  (F = 1 -> u_of_F RR KR nc F = 1) /\ (F = 0 -> u_of_F RR KR nc F = 0) /\
+  (F = 1 / 2 -> u_of_F RR KR nc F = 1 / 2)) /\
   (* u_of_F_is_sign *)
   (forall eps e1 e2,
   0 < eps -> e1 <> [] -> separated eps (e1 ++ e2) ->
-  INR (length e1) * INR (length e1) * (2 * k_u_lo_tol KR) < 1 ->
-  (exists k : Z, 2 * wm_sum e1 e2 = IZR k) ->
   let F := pairF RR KR eps e1 e2 in
-  u_of_F RR KR F = (if Rltb F (1/2) then 0 else if Rltb (1/2) F then 1 else 1/2)) /\
+  u_of_F RR KR (length e1) F = (if Rltb F (1/2) then 0 else if Rltb (1/2) F then 1 else 1/2)) /\
   (* wm_sum_half_integer *)
   (forall e1 e2, exists k : Z, 2 * wm_sum e1 e2 = IZR k).
 Proof. exact (conj u_of_F_values (conj u_of_F_is_sign wm_sum_half_integer)). Qed.
 Print Assumptions C10_u_of_F.
+
+(* the pinned kernel used the fixed thresholds 1/2 -+ 1e-8: correct while
+   2e-8 m^2 < 1 (m <= 7071), and wrong for m = 7072: E1 = 7071 zeros and a 1,
+   E2 = 7071 zeros and a 2 have F = 1/2 - 1/(2 m^2) < 1/2, the repaired mapping
+   gives u = 0 (Weigel-Mason), the pinned one the tie value 1/2 *)
+Theorem C10_u_of_F_pinned_refuted :
+  (* u_of_F_pinned_is_sign *)
+  (forall eps e1 e2,
+  0 < eps -> e1 <> [] -> separated eps (e1 ++ e2) ->
+  INR (length e1) * INR (length e1) * (2 * (1 / 100000000)) < 1 ->
+  let F := pairF RR KR eps e1 e2 in
+  u_of_F_pinned RR KR (1 / 100000000) F =
+  (if Rltb F (1/2) then 0 else if Rltb (1/2) F then 1 else 1/2)) /\
+  (* u_of_F_pinned_refuted *)
+  (let k := Z.to_nat 7071 in
+   let F := pairF RR KR (1 / 1000000) (big_e1 k) (big_e2 k) in
+   length (big_e1 k) = Z.to_nat 7072 /\ F < 1 / 2 /\
+   u_of_F RR KR (length (big_e1 k)) F = 0 /\
+   u_of_F_pinned RR KR (1 / 100000000) F = 1 / 2).
+Proof. exact (conj u_of_F_pinned_is_sign u_of_F_pinned_refuted). Qed.
+Print Assumptions C10_u_of_F_pinned_refuted.
 
 (* ranks returned by the kernel: 1 + the increments accumulated over the pairs
    (u for the first ensemble of a pair, 1-u for the second), for every number
@@ -136,11 +156,11 @@ Theorem C10_ensemble_ranks :
   (* ensrank_ranks *)
   (forall eps sim fs ranks,
      ensrank RR KR eps sim = EnsOk fs ranks ->
-     ranks = map (fun d => 1 + d) (delta eps sim)) /\
+     ranks = map (fun d => 1 + d) (delta (length (hd [] sim)) eps sim)) /\
   (* delta_ordered *)
   (forall eps m ks,
      0 < eps -> (1 <= m)%nat -> NoDup (map fst ks) -> ordered_rows eps m ks ->
-     delta eps (map snd ks) =
+     delta m eps (map snd ks) =
      map (fun a => cntR (fun b : R * list R => Rltb (fst b) (fst a)) ks) ks) /\
   (* argsort_ranks_distinct: argsort(argsort(x)) of distinct values *)
   (forall obs, NoDup obs ->
